@@ -49,6 +49,30 @@ MBSpec == MBInit /\ [][MBNext]_mbvars
 \* every invoked location is a block of the snapshot
 SeenOnGrid == \A loc \in mbseen : \A a \in 1..Len(mbsnap) : loc[a] >= 0 /\ loc[a] < Len(mbsnap[a])
 
+\* ---- several inputs (map_blocks(f, a, b, drop_axis=...)): block_info[i] must describe the block of input i that the
+\* function was actually handed.  Along an axis the block is either ONE block of the input's snapshot (location on the
+\* grid, extent of that block) or, for an axis that is contracted away (drop_axis), the WHOLE axis.  In both cases the
+\* extent announced in array-location is the size of what was handed over.
+InputOK(snap, rec) ==
+  LET r == Len(snap)
+      one(a) == LET loc == rec.info.chunk_location[a] IN
+                  /\ loc >= 0 /\ loc < Len(snap[a])
+                  /\ rec.info.array_location[a] = <<Offset(snap[a], loc + 1), Offset(snap[a], loc + 1) + snap[a][loc + 1]>>
+      whole(a) == rec.info.array_location[a] = <<0, SumSeq(snap[a])>>
+  IN IF Len(rec.shape) # r \/ Len(rec.info.chunk_location) # r \/ Len(rec.info.array_location) # r THEN "input-info-has-wrong-rank"
+     ELSE IF \E a \in 1..r : rec.shape[a] # rec.info.array_location[a][2] - rec.info.array_location[a][1]
+          THEN "array-location-extent-differs-from-the-block-handed-over"
+     ELSE IF \E a \in 1..r : ~one(a) /\ ~whole(a) THEN "array-location-is-neither-a-block-nor-the-whole-axis"
+     ELSE IF rec.info.shape # [a \in 1..r |-> SumSeq(snap[a])] THEN "array-shape-differs-from-advertised-layout"
+     ELSE "ok"
+\* c.snaps: one snapshot per input; c.calls: sequence of [inputs |-> sequence of per-input records]
+BlockInfo2Verdict(c) ==
+  LET bad == {<<j, q>> \in (1..Len(c.calls)) \X (1..Len(c.snaps)) : InputOK(c.snaps[q], c.calls[j].inputs[q]) # "ok"}
+  IN IF c.calls = <<>> THEN "ok-function-not-invoked"
+     ELSE IF bad = {} THEN "ok"
+     ELSE LET w == CHOOSE p \in bad : \A o \in bad : p[1] < o[1] \/ (p[1] = o[1] /\ p[2] <= o[2])
+          IN "input-" \o ToString(w[2] - 1) \o ":" \o InputOK(c.snaps[w[2]], c.calls[w[1]].inputs[w[2]])
+
 \* verdict over a recorded computation: c.snap, c.calls
 BlockInfoVerdict(c) ==
   LET bad == {j \in 1..Len(c.calls) : InvokeOK(c.snap, c.calls[j]) # "ok"}
